@@ -72,6 +72,7 @@ T_CliEnd == /\ Ev.ev = "CliEnd" /\ pc \in {"done", "failed"}
             /\ Chk("C19 single header", Ev.headers = disk.headers)
             /\ Chk("C19 one record per response", Ev.nrecs = Len(disk.recs))
             /\ Chk("C19 earlier contents still in place", Ev.pre_kept)
+            /\ Chk("C06 every unparsable line is reported (and none is written)", Ev.reported = logged)
             /\ pc' = "ended" /\ UNCHANGED <<args, qfile, fmt, disk, disk0, next, chunk, todo, logged, runs, alone, csvsorted>>
 (* silent steps: everything of Cli that leaves no record; without a response file the deliveries are silent too *)
 S_Step == CliStep /\ UNCHANGED <<l, alone, csvsorted>>
